@@ -179,12 +179,14 @@ impl Group for Serve {
 /// added to the entry as it is *then*.
 pub struct Overlap;
 static OVERLAP_GATE: std::sync::atomic::AtomicBool = std::sync::atomic::AtomicBool::new(false);
+/// how often the handler of `c05.overlap` ran, per class
+static OVERLAP_COUNTS: std::sync::Mutex<Vec<(String, u32)>> = std::sync::Mutex::new(Vec::new());
 impl Group for Overlap {
     fn name(&self) -> &'static str {
         "c05.overlap"
     }
     fn rule(&self) -> &'static str {
-        "one page with a vary rule on x-lang; k variants are cached, then a request for a new variant is started whose handler waits; meanwhile the page is cleared and requested again by j other variants (a new, shorter or longer entry); the handler is released; oracle: the waiting request is answered with its own variant (no panic in its task), and every variant requested afterwards gets its own body; non-trivial = always"
+        "one page with a vary rule on x-lang; k variants are cached, then a request for a new variant is started whose handler waits; meanwhile the page is cleared and requested again by j other variants (a new, shorter or longer entry); the handler is released; oracle: the waiting request is answered with its own variant (no panic in its task), every variant requested afterwards gets its own body, and — when variants were cached beforehand and nothing was cleared — every class was computed exactly once (a variant that joined the entry during the overlap is not lost when the waiting one joins); non-trivial = always"
     }
     fn parallel(&self) -> bool {
         false
@@ -209,6 +211,13 @@ impl Group for Overlap {
         let mut ext = Extensions::empty();
         ext.add_prepare_single("/v", prepare!(req, _h, _p, _a, {
             let lang = req.headers().get("x-lang").and_then(|v| v.to_str().ok()).unwrap_or("aa").chars().take(2).collect::<String>();
+            {
+                let mut c = OVERLAP_COUNTS.lock().unwrap();
+                match c.iter_mut().find(|(l, _)| *l == lang) {
+                    Some((_, n)) => *n += 1,
+                    None => c.push((lang.clone(), 1)),
+                }
+            }
             if lang == "zz" {
                 while !OVERLAP_GATE.load(Ordering::SeqCst) {
                     tokio::time::sleep(std::time::Duration::from_millis(2)).await;
@@ -225,6 +234,7 @@ impl Group for Overlap {
         let rt = tokio::runtime::Builder::new_multi_thread().worker_threads(2).enable_all().build().unwrap();
         let addr: SocketAddr = "10.0.0.2:4000".parse().unwrap();
         OVERLAP_GATE.store(false, Ordering::SeqCst);
+        OVERLAP_COUNTS.lock().unwrap().clear();
         let get = |coll: Arc<HostCollection>, lang: &'static str| async move {
             let host = coll.get_host("localhost").unwrap();
             let mut req = Request::builder().uri("/v").header("x-lang", lang).body(kvarn::application::Body::Bytes(Bytes::new().into())).unwrap();
@@ -259,6 +269,13 @@ impl Group for Overlap {
             if o != format!("variant {l}") { problems.push(format!("afterwards {l} got `{o}`")); }
         }
         rt.shutdown_background();
+        // one computation per class while the page stays cached: with variants cached beforehand and no clear, the
+        // entry exists throughout, every overlapping miss joins it, and nothing that joined may be lost again
+        if k >= 1 && !clear {
+            for (l, n) in OVERLAP_COUNTS.lock().unwrap().iter() {
+                if *n != 1 { problems.push(format!("class {l} was computed {n} times although the page stayed cached")); }
+            }
+        }
         if problems.is_empty() { "ok".into() } else { problems.join(" | ") }
     }
     fn oracle(&self, _ctx: &Ctx, line: &str, out: &str) -> Option<(String, String)> {
